@@ -290,10 +290,14 @@ def gen_method(rng, nslots=None, misaligned=False, allow_new=True, max_tries=5, 
                 t = (["if-eqz", "if-nez", "if-ltz", "if-gez", "if-gtz", "if-lez"][s["op"]], rng.randrange(256), rel)
             else:
                 t = (["if-eq", "if-ne", "if-lt", "if-ge", "if-gt", "if-le"][s["op"]], rng.randrange(16), rng.randrange(16), rel)
-        elif k == "switch":
-            t = ("packed-switch" if s["packed"] else "sparse-switch", rng.randrange(256), pay_off[i] - off[i])
-        else:
-            t = ("fill-array-data", rng.randrange(256), pay_off[i] - off[i])
+        elif k in ("switch", "fill"):
+            rel = pay_off[i] - off[i]
+            if misaligned and rng.random() < 0.15:
+                # (C40 pool only) an encoded payload offset at which NO instruction starts: inside the payload, one unit before it (second half
+                # of the preceding instruction / the padding), or behind the end of the code
+                rel = rng.choice([rel + 1, rel - 1, total_units_planned - off[i] + rng.randint(0, 5), rel + 2])
+                s["bad_payload_offset"] = True
+            t = (("packed-switch" if s["packed"] else "sparse-switch") if k == "switch" else "fill-array-data", rng.randrange(256), rel)
         s["emit"] = t
         insns.append(t)
         ins_list.append((off[i], size(s), t[0]))
@@ -363,7 +367,7 @@ def gen_method(rng, nslots=None, misaligned=False, allow_new=True, max_tries=5, 
     m.switch_payload = {off[i] * 2: pay_off[i] * 2 for i, s in enumerate(slots) if s["kind"] in ("switch", "fill")}
     m.payload_kind = {off[i] * 2: ("fill" if s["kind"] == "fill" else "packed" if s["packed"] else "sparse") for i, s in enumerate(slots) if s["kind"] in ("switch", "fill")}
     m.features = {"tries": len(tries), "switch": any(s["kind"] == "switch" for s in slots), "fill": any(s["kind"] == "fill" for s in slots),
-                  "shared_payload": any(s.get("share") is not None for s in slots), "misaligned": any(o % 2 for o in pay_off.values()),
+                  "shared_payload": any(s.get("share") is not None for s in slots), "misaligned": any(o % 2 for o in pay_off.values()) or any(s.get("bad_payload_offset") for s in slots),
                   "new_ops": any(s["kind"] == "plain" and D.NAME2OP[s["ins"][0]] >= 0xFA for s in slots), "slots": n,
                   "backward": any(s["kind"] in ("goto", "if") and s["target"] <= i for i, s in enumerate(slots)),
                   "wild_target": any(s.get("wild") for s in slots), "payload_in_front": bool(front)}
